@@ -403,6 +403,11 @@ def run_flush(ctx):
             if not retaining:
                 jobs.append(("model:%d:%s" % (cid, " ".join(argv)), "model", [], argv, mlines, False))
 
+        if not thorough:     # quick tier: all model-compared chains plus a seeded sample of the rest (every case is reached over the seeds; the thorough tier runs all)
+            keepj = [j for j in jobs if j[1] == "model"]
+            others = [j for j in jobs if j[1] != "model"]
+            rng.shuffle(others)
+            jobs = others[:int(os.environ.get("C04FLUSH_QUICK_CASES", "22"))] + keepj
         futs = [pool.submit(one_case, ctx, kind, fl, argv, units, oj) for (name, kind, fl, argv, units, oj) in jobs]
         cases = []
         n_ok = n_skip = 0
